@@ -110,7 +110,9 @@ func commercialCheck(val string) error {
 
 	// Establish check digits by subtracting 97 from total until negative.
 	checkDigit := sum
-	for checkDigit > 0 {
+	// subtract until the result is negative: a total that is an exact
+	// multiple of 97 gives check digits 97, never 00
+	for checkDigit >= 0 {
 		checkDigit = checkDigit - 97
 	}
 
